@@ -99,6 +99,12 @@ impl Check for C19 {
         let q = GenParams { max_ticks: 1, max_sends: 1, faults: false, tail: false, max_fates: 1, ..GenParams::default() };
         let world = (scenario_strategy(&q), crate::sim::script::wcase_strategy(&sp), prop_oneof![Just(0u64), Just(300_000u64), Just(3_000_000u64), Just(25_000_000u64)]).prop_map(|(sc, mut wc, settle)| {
             wc.settle_us = settle;
+            // a third of the server applications stop reading a step's events after the first one (or read none)
+            wc.server_event_limit = match wc.seed % 6 {
+                0 => Some(1),
+                1 => Some(0),
+                _ => None,
+            };
             Case { sc, drop_after: 0, run_tail: false, world: Some(wc), codec: None }
         });
         prop_oneof![4 => pair, 1 => pair_big, 2 => world, 1 => codec].boxed()
@@ -109,7 +115,7 @@ impl Check for C19 {
     }
 
     fn rule(&self) -> String {
-        "case = SimPair scenario (multi-fragment sizes biased to k*1448+-1 and arbitrary non-multiples, all modes, faults, small windows so that the receive window advances over partial packets) executed under the checking allocator, with the whole pair dropped after a generated number of ticks (mid-transfer) or after a fair tail. A third case kind hands the frame parser 1-19 inputs from C16's generators (valid frames, arbitrary bytes, structurally damaged frames with a recomputed checksum), re-encoding what is accepted: rejected input must leave nothing behind (non-trivial there = a damaged data frame of more than 20 bytes was rejected). A second case kind runs a World script (real Server and 1-3 Clients: sends of all sizes in both directions, disconnects, Server::drop, faults) and drops Server, Clients and everything in flight after 0 / 0.3 / 3 / 25 s of settling. Freed blocks are checksummed and quarantined until the case ends. Oracle: no block released twice, no release of a pointer that is not a live block, no write into a released block; the allocator recorded no dealloc / realloc whose size or alignment differs from the one the block was allocated with, and the thread's live-byte count after everything created by the case has been dropped equals the count on entry (one warm-up execution per worker first). Non-trivial = a multi-fragment packet whose length is not a multiple of 1448 completed reassembly and was delivered, or the pair was dropped with data in flight. Distinct = distinct serialised case.".into()
+        "case = SimPair scenario (multi-fragment sizes biased to k*1448+-1 and arbitrary non-multiples, all modes, faults, small windows so that the receive window advances over partial packets) executed under the checking allocator, with the whole pair dropped after a generated number of ticks (mid-transfer) or after a fair tail. A third case kind hands the frame parser 1-19 inputs from C16's generators (valid frames, arbitrary bytes, structurally damaged frames with a recomputed checksum), re-encoding what is accepted: rejected input must leave nothing behind (non-trivial there = a damaged data frame of more than 20 bytes was rejected). (a third of the server applications read only the first - or none - of the events of a step() and drop the iterator) A second case kind runs a World script (real Server and 1-3 Clients: sends of all sizes in both directions, disconnects, Server::drop, faults) and drops Server, Clients and everything in flight after 0 / 0.3 / 3 / 25 s of settling. Freed blocks are checksummed and quarantined until the case ends. Oracle: no block released twice, no release of a pointer that is not a live block, no write into a released block; the allocator recorded no dealloc / realloc whose size or alignment differs from the one the block was allocated with, and the thread's live-byte count after everything created by the case has been dropped equals the count on entry (one warm-up execution per worker first). Non-trivial = a multi-fragment packet whose length is not a multiple of 1448 completed reassembly and was delivered, or the pair was dropped with data in flight. Distinct = distinct serialised case.".into()
     }
 
     fn assumptions(&self) -> Vec<String> {
